@@ -303,6 +303,10 @@ class Session:
                 self.obj.recalculate(name)
             else:
                 self.obj.recalculate()
+        elif op == "calculate_range":
+            # Indicator.calculate_index(start, end): every reading from `start` to the end is recomputed
+            # (after the caller corrected an older candle in place)
+            self.obj.calculate_index(step[2], len(self.obj.candles))
         elif op == "calculate_index":
             if len(step) > 3 and step[3] == "fresh":
                 if hexobj:
@@ -588,7 +592,7 @@ def record(sc):
         elif step[0] == "append":
             consumed = step[2]
         nm = ""
-        if step[0] in ("calculate", "purge", "recalculate", "calculate_index", "remove") and len(step) > 1:
+        if step[0] in ("calculate", "purge", "recalculate", "calculate_index", "calculate_range", "remove") and len(step) > 1:
             nm = step[1] or ""
         elif step[0] == "add":
             nm = ses.live.get(step[1], "")
@@ -601,7 +605,7 @@ def record(sc):
               "a": step[1] if step[0] == "append" else 0,
               "b": step[2] if step[0] == "append" else (step[1] if step[0] == "new" else 0),
               "nm": nm,
-              "idx": step[2] if step[0] == "calculate_index" else (step[1] + 1 if step[0] == "add" else step[2] + 1 if step[0] == "reconf" else 0),
+              "idx": step[2] if step[0] in ("calculate_index", "calculate_range") else (step[1] + 1 if step[0] == "add" else step[2] + 1 if step[0] == "reconf" else 0),
               "exc": exc, "bt": [], "ob": ses.observed(), "rd": reads,
               "ab": ses.args[0], "aa": ses.args[1], "wk": [w for w in wk if w]}
         snaps.append((ev, {n: proj_candles(cs, base) for n, cs in ses.managers()}))
